@@ -297,6 +297,39 @@ func checkC06(c *run.Ctx) {
 		}
 		c.Count("command_steps_verified", nSigned)
 		c.Max("max_group_depth", int64(l.MaxDepth))
+		// Key rotation that keeps the key id: the same list, signed again with another key of the same kind and id,
+		// must carry signatures that verify under the new key (nothing of an earlier signing may be reused).
+		if i%3 == 0 {
+			kp2 := all[kind][1]
+			again := util.DeepCopy(twin)
+			var rerr error
+			if pi := run.Guard(func() { rerr = signature.SignSteps(bg, again, kp2.Signer, repo, signature.WithEnv(copyEnv(penv))) }); pi != nil {
+				c.Violation(id, map[string]any{"what": "SignSteps (second key) panicked: " + pi.Value, "stack": pi.Stack})
+				return
+			}
+			if rerr != nil {
+				c.Violation(id, desc("SignSteps with a second key of the same kind and key id failed: "+rerr.Error()))
+				return
+			}
+			allCommandSteps(again, func(path string, s *pipeline.CommandStep) {
+				if bad != "" {
+					return
+				}
+				if s.Signature == nil {
+					bad = "after re-signing with a second key: command step " + path + " has no signature"
+					return
+				}
+				venv := copyEnv(penv)
+				if _, err := verifyStep(kp2.Verifier, s.Signature, s, repo, venv); err != nil {
+					bad = fmt.Sprintf("the list was signed with one key and then, unchanged, with a second key of the same kind and key id: step %s does not verify under the second key: %v", path, err)
+				}
+			})
+			if bad != "" {
+				c.Violation(id, desc(bad))
+				return
+			}
+			c.Count("lists_resigned_with_second_key_same_id", 1)
+		}
 		// Nothing but signatures changed.
 		allCommandSteps(steps, func(_ string, s *pipeline.CommandStep) { s.Signature = nil })
 		allCommandSteps(twin, func(_ string, s *pipeline.CommandStep) { s.Signature = nil })
